@@ -7,3 +7,8 @@ import TradingVerif.Props.C03
 #print axioms TV.targeted_entry
 #print axioms TV.weights_target_value
 #print axioms TV.snap_excluded_point
+#print axioms TV.exec_reaches
+#print axioms TV.rebalance_ok_decomp
+#print axioms TV.rebalance_reaches
+#print axioms TV.rebalance_reaches_contracts
+#print axioms TV.rebalance_reaches_weights
